@@ -85,18 +85,15 @@ Consistent(U, G, T) ==
   /\ \A a, b \in T \cap ForbidNodes(G) :
         a # b => NameOf(U, G.nodes[a].id) # NameOf(U, G.nodes[b].id)
 
-\* recursive search with pruning instead of enumerating SUBSET SolvNodes(G)
-RECURSIVE ExistsModel(_, _, _, _)
-ExistsModel(U, G, todo, T) ==
-  IF todo = {} THEN Consistent(U, G, T)
-  ELSE LET n == CHOOSE n \in todo : TRUE IN
-       \/ ExistsModel(U, G, todo \ {n}, T)
-       \/ /\ n \notin Dead(G)
-          /\ \A e \in EdgesOf(G, "cons") :
-                ~(G.edges[e].s \in T \cup {n} /\ G.edges[e].t \in T \cup {n})
-          /\ ExistsModel(U, G, todo \ {n}, T \cup {n})
+\* Propositional reading of the picture: literals are <<node, 0|1>> (see Universe!Unsat).
+GraphClauses(U, G) ==
+       {{<<g[1], 0>>} \cup {<<t, 1>> : t \in {x \in GroupTargets(G, g) : G.nodes[x].k = "solv"}} : g \in ReqGroups(G)}
+  \cup {{<<G.edges[e].s, 0>>, <<G.edges[e].t, 0>>} : e \in EdgesOf(G, "cons")}
+  \cup {{<<n, 0>>} : n \in Dead(G)}
+  \cup UNION {{{<<a, 0>>, <<b, 0>>} : b \in {x \in ForbidNodes(G) :
+              x # a /\ NameOf(U, G.nodes[x].id) = NameOf(U, G.nodes[a].id)}} : a \in ForbidNodes(G)}
 
-Refutes(U, G) == ~ExistsModel(U, G, SolvNodes(G), {G.root})
+Refutes(U, G) == Unsat(GraphClauses(U, G), {<<G.root, 1>>})
 
 (***************************************************************************)
 (* C04: size of the rendered message.  The renderer unfolds the requires   *)
